@@ -9,6 +9,18 @@ MSG_INV = ["InvIff", "InvValue", "InvNestedDup", "Emit"]
 MAP_INV = ["InvIff", "InvValue", "InvDup", "Emit"]
 
 JOBS = {
+    "C14": [
+        {"module": "MC_Tag", "spec": "Spec", "invariants": ["InvParse", "InvTagged", "InvUntagged", "InvExclusive", "InvToTagged", "Emit"],
+         "quick": {"timeout": 300}, "thorough": {"timeout": 1200},
+         "rule": "(body, tag sequence of length 0/1/2, tag number, tag-head width) tuples, each decoded tagged and untagged as all six "
+                 "taggable types, plus tagged encoding of every accepted body; all non-trivial"},
+    ],
+    "C15": [
+        {"module": "MC_Int", "spec": "Spec", "invariants": ["InvParse", "InvIff", "InvValue", "InvRange", "InvReenc", "Emit"],
+         "quick": {"timeout": 300}, "thorough": {"timeout": 1200},
+         "rule": "54 integers (27 magnitudes around 0, 23/24, 2^8, 2^16, 2^32, 2^63, 2^64, both signs) x every head width that holds the value "
+                 "plus two bignum forms x 24 positions; each state = one (integer, encoding, position); all non-trivial"},
+    ],
     "C12": [
         {"module": "MC_Dup", "spec": "Spec", "invariants": ["InvDecode", "InvOnlyFault", "InvEncode", "InvMustFail", "Emit"],
          "quick": {"constants": {"MaxN": 3, "AllEnc": "FALSE"}, "timeout": 300},
